@@ -10,7 +10,7 @@ from .devices import open_device
 from .formats import file_formats
 from .metacommand_impl import get_as_int
 from . import operators
-from .types import Instruction, Label, Assignment, InstructionPointer, WordList, ParenthesizedExpression
+from .types import Instruction, Label, Assignment, InstructionPointer, WordList, ParenthesizedExpression, CodeBlock
 from . import reports
 
 
@@ -281,6 +281,13 @@ class Compiler:
                     elif isinstance(symbol, Assignment):
                         # Implicit .word
                         words = [insn.name] + insn.operands[:]
+                        if isinstance(words[-1], CodeBlock):
+                            reports.error(
+                                "meta-type-mismatch",
+                                (words[0].ctx_start, words[0].ctx_end, f"'{insn.name.name}' is used as an instruction name"),
+                                (symbol.ctx_start, symbol.ctx_end, "...but is defined as a variable here. This would normally be interpreted as\nimplicit '.word', which does not take a block of code.")
+                            )
+                            return None
                         if len(words) > 1:
                             if isinstance(words[1], ParenthesizedExpression) and words[1].opening_parenthesis == "(":
                                 # 'a (expr)' was misparsed as instruction 'a' with operand '(expr)'
